@@ -11,7 +11,7 @@ Variable delay : node -> node -> xtime.
 Variable dur : node -> xtime.
 Variable tmin : Q.
 Variables i0 r0 : list node.
-Hypothesis Hdelay : forall u v d, delay u v = Some d -> 0 <= d.
+Hypothesis Hdelay : forall u v d, In u (gnodes g) -> In v (gadj g u) -> delay u v = Some d -> 0 <= d.
 
 Notation HEDGE := (hedge g delay dur r0).
 Notation LT := (ltmax tmax).
@@ -24,7 +24,7 @@ Inductive hpath : node -> Q -> Prop :=
 | hpS : forall u v c d, hpath u c -> HEDGE u v d -> hpath v (c + d).
 
 Lemma hedge_nonneg : forall u v d, HEDGE u v d -> 0 <= d.
-Proof. intros u v d [_ [_ [H _]]]. eapply Hdelay; eauto. Qed.
+Proof. apply (EventSIRInv.hedge_nonneg g delay dur r0 Hdelay). Qed.
 
 Lemma hpath_nonneg : forall v c, hpath v c -> 0 <= c.
 Proof.
@@ -126,9 +126,9 @@ Variable dur : node -> xtime.
 Variable tmin : Q.
 Variables i0 r0 : list node.
 
-Hypothesis Hdelay : forall u v d, delay u v = Some d -> 0 <= d.
-Hypothesis Hdur : forall u d, dur u = Some d -> 0 <= d.
-Hypothesis Hadj : forall u, NoDup (gadj g u).
+Hypothesis Hdelay : forall u v d, In u (gnodes g) -> In v (gadj g u) -> delay u v = Some d -> 0 <= d.
+Hypothesis Hdur : forall u d, In u (gnodes g) -> dur u = Some d -> 0 <= d.
+Hypothesis Hadj : forall u, In u (gnodes g) -> NoDup (gadj g u).
 Hypothesis Hdisj : forall u, In u i0 -> ~ In u r0.
 Hypothesis Htmin : ltmax tmax tmin.
 Hypothesis Hgn : NoDup (gnodes g).
@@ -219,24 +219,26 @@ Qed.
 
 (* fast_nonMarkov_SIR = first-passage percolation: for EVERY tie policy the run
    ends within the fuel and its final state satisfies the specification *)
-Theorem esir_percolation :
-  exists sF, esir_run tb g delay dur i0 r0 tmin tmax (esir_fuel g i0) = Ok sF /\
+Theorem esir_percolation : forall fuel, (esir_fuel g i0 <= fuel)%nat ->
+  exists sF, esir_run tb g delay dur i0 r0 tmin tmax fuel = Ok sF /\
              qu sF = [] /\ percolation_spec sF.
 Proof.
-  destruct (esir_terminates tb g tmax delay dur tmin i0 r0 Hdelay Hdur Hadj Hdisj Htmin Hgn Hi0g Hadjg)
+  intros fuel Hf.
+  destruct (esir_terminates tb g tmax delay dur tmin i0 r0 Hdelay Hdur Hadj Hdisj Htmin Hgn Hi0g Hadjg fuel Hf)
     as [sF [cF [Hrun [Hq HI]]]].
   exists sF. split; auto. split; auto. eapply final_spec; eauto.
 Qed.
 
 (* soundness and closedness on their own (DESIGN C11: esir_sound, esir_closed) *)
-Theorem esir_sound_closed :
-  exists sF, esir_run tb g delay dur i0 r0 tmin tmax (esir_fuel g i0) = Ok sF /\
+Theorem esir_sound_closed : forall fuel, (esir_fuel g i0 <= fuel)%nat ->
+  exists sF, esir_run tb g delay dur i0 r0 tmin tmax fuel = Ok sF /\
     sound_log g delay dur tmin i0 r0 (tlog sF) /\
     closed_log g tmax delay dur r0 (tlog sF) /\
     init_log tmin i0 (tlog sF) /\
     (forall e, ~ In e (qu sF)).
 Proof.
-  destruct (esir_terminates tb g tmax delay dur tmin i0 r0 Hdelay Hdur Hadj Hdisj Htmin Hgn Hi0g Hadjg)
+  intros fuel Hf.
+  destruct (esir_terminates tb g tmax delay dur tmin i0 r0 Hdelay Hdur Hadj Hdisj Htmin Hgn Hi0g Hadjg fuel Hf)
     as [sF [cF [Hrun [Hq HI]]]].
   exists sF. split; auto. split; [apply (i_sound _ _ _ _ _ _ _ _ _ HI)|].
   split; [eapply final_closed; eauto|]. split; [eapply final_init; eauto|].
@@ -254,7 +256,7 @@ Variable delay : node -> node -> xtime.
 Variable dur : node -> xtime.
 Variable tmin : Q.
 Variables i0 r0 : list node.
-Hypothesis Hdelay : forall u v d, delay u v = Some d -> 0 <= d.
+Hypothesis Hdelay : forall u v d, In u (gnodes g) -> In v (gadj g u) -> delay u v = Some d -> 0 <= d.
 
 Notation SPEC := (percolation_spec g tmax delay dur tmin i0 r0).
 
